@@ -387,6 +387,7 @@ def run(ch: Choices, opts: Dict[str, Any]) -> Dict[str, Any]:
     node = ControllerNode("n0", 0, qm, lambda: sched.now, flavour="vanilla", link=link)
     pk = [install_purpose_map(ch, node)]
     node.stack.refuse = lambda req: getattr(req, "max_time", 0) == REFUSE_TAG
+    node.env.slow_clear = (not calm) and ch.flag(1, 3, "slow-clear")    # qfree is suspended while the qubit is cleared
     ex = node.ex
     faults: Dict[str, int] = {}
     probes: Dict[str, int] = {}
@@ -404,7 +405,7 @@ def run(ch: Choices, opts: Dict[str, Any]) -> Dict[str, Any]:
         bump(faults, "slow-link")
 
     issued: List[Dict[str, Any]] = []       # in issue order
-    state = {"done": 0, "last_delivery_step": 0}
+    state = {"done": 0, "last_delivery_step": 0, "freeing": set()}
 
     # ---- monitors ---------------------------------------------------------
     def after_instr(exr, sid, pc, command):
@@ -451,6 +452,13 @@ def run(ch: Choices, opts: Dict[str, Any]) -> Dict[str, Any]:
 
     node.env.after_instr.append(after_instr)
 
+    def before_instr(exr, sid, pc, command):
+        # a qfree that is suspended in a slow clear has already unmapped its qubit when the instruction event arrives
+        if command.mnemonic == "qfree":
+            aid2 = exr._get_app_id(sid)
+            state["freeing"].add((aid2, exr._get_register(aid2, command.reg)))
+    node.env.before_instr.append(before_instr)
+
     def unit_maps() -> Dict[Tuple[int, int], int]:
         return {(aid, v): p for aid, um in ex._qubit_unit_modules.items() for v, p in enumerate(um) if p is not None}
 
@@ -480,8 +488,10 @@ def run(ch: Choices, opts: Dict[str, Any]) -> Dict[str, Any]:
             if q is not None and q != p:
                 raise Violation("remap", "remap|allocated-virtual-qubit-overwritten",
                                 {"qubit": kx, "from": p, "to": q, "trace": _tail(trace)})
-            if q is None and kx != freed:
+            if q is None and kx != freed and kx not in state["freeing"]:
                 raise Violation("remap", "remap|virtual-qubit-vanished", {"qubit": kx, "trace": _tail(trace)})
+            if q is None:
+                state["freeing"].discard(kx)
         for reqs in list(ex._epr_create_requests.values()) + list(ex._epr_recv_requests.values()):
             for r in reqs:
                 if not (0 < r.pairs_left <= r.tot_pairs):
